@@ -350,6 +350,50 @@ def run_history(otype, config, ops):
                 if after != before:
                     ch = [p for p in set(before) | set(after) if before.get(p) != after.get(p)]
                     fails.append(("wp-refused:%s:state-changed" % why, "%s: properties %r changed: %s -> %s" % (ctx, ch, _s(before.get(ch[0])), _s(after.get(ch[0])))))
+            elif k == "dev":
+                # the device object, by its own identifier or by the wildcard instance 4194303: ReadPropertyMultiple must say what ReadProperty says
+                from bacpypes.apdu import ReadAccessSpecification
+                from bacpypes.basetypes import PropertyReference
+                refs, wild = op[1], op[2]
+                target = ("device", 4194303) if wild else ("device", 2)
+                stats["refused"] += 1
+
+                def octs(anyv):
+                    pd = L.PDUData() if hasattr(L, "PDUData") else None
+                    from bacpypes.pdu import PDUData
+                    pd = PDUData()
+                    anyv.tagList.encode(pd)
+                    return bytes(pd.pduData)
+                singles = []
+                for pid, index in refs:
+                    rq = A.ReadPropertyRequest(objectIdentifier=target, propertyIdentifier=pid)
+                    if index is not None:
+                        rq.propertyArrayIndex = index
+                    r1 = call(rq)
+                    singles.append(("value", octs(r1.propertyValue)) if isinstance(r1, A.ReadPropertyACK) else ("error", error_of(r1)))
+                prs = []
+                for pid, index in refs:
+                    pr = PropertyReference(propertyIdentifier=pid)
+                    if index is not None:
+                        pr.propertyArrayIndex = index
+                    prs.append(pr)
+                r = call(A.ReadPropertyMultipleRequest(listOfReadAccessSpecs=[ReadAccessSpecification(objectIdentifier=target, listOfPropertyReferences=prs)]))
+                if not isinstance(r, A.ReadPropertyMultipleACK):
+                    fails.append(("rpm-device:not-acked:%s" % (error_of(r),), "%s: answered %r" % (ctx, error_of(r) or r)))
+                    break
+                results = r.listOfReadAccessResults[0].listOfResults
+                if len(results) != len(refs):
+                    fails.append(("rpm-device:result-count", "%s: %d results for %d references" % (ctx, len(results), len(refs))))
+                for (pid, index), el, one in zip(refs, results, singles):
+                    if el.readResult.propertyAccessError is not None:
+                        pe = el.readResult.propertyAccessError
+                        got = ("error", ("error", str(pe.errorClass), str(pe.errorCode)))
+                    else:
+                        got = ("value", octs(el.readResult.propertyValue))
+                    if got != one:
+                        fails.append(("rpm-device:%s:differs-from-read-property:%s-for-%s" % ("wildcard" if wild else "own-id", got[0], one[0]),
+                                      "%s: %s[%r] of %r: ReadPropertyMultiple says %r, ReadProperty says %r" % (ctx, pid, index, target, got, one)))
+                        break
             elif k == "rpm":
                 refs = op[1]
                 from bacpypes.apdu import ReadAccessSpecification
@@ -569,6 +613,9 @@ def history_strategy(otype, focus=None):
             alts.append(st.sampled_from(ro).flatmap(lambda pid: V.strategy(dts[pid], 1).map(lambda v, pid=pid: ["wp-bad", "read-only", pid, v, None])))
         if unknown_pids:
             alts.append(st.sampled_from(unknown_pids).map(lambda pid: ["wp-bad", "unknown-property", pid, None, None]))
+        dref = st.sampled_from([["objectName", None], ["objectIdentifier", None], ["objectList", 0], ["objectList", 1], ["objectList", None], ["vendorIdentifier", None],
+                                ["maxApduLengthAccepted", None], ["systemStatus", None], ["objectList", 200], ["presentValue", None], ["objectName", 1], ["protocolServicesSupported", None]])
+        alts.append(st.tuples(st.just("dev"), st.lists(dref, min_size=1, max_size=4), st.booleans()).map(list))
         ref = st.tuples(st.sampled_from(pids + unknown_pids[:1]), index).map(list)
         alts.append(st.tuples(st.just("rpm"), st.lists(ref, min_size=1, max_size=4), st.sampled_from([False, False, False, True])).map(list))
         alts.append(st.tuples(st.just("rpm"), st.sampled_from([[["all", None]], [["required", None]], [["optional", None]]]), st.sampled_from([False, False, True])).map(list))
